@@ -200,11 +200,28 @@ func (g *Gen) multiAssignOn(k Kind, a, b *Var) []Stmt {
 		t := g.fresh("t")
 		i := g.fresh("i")
 		g.declare(&Var{Name: i, Kind: KInt})
+		// in every order and with the table itself among the targets: table and key
+		// of a target are evaluated before any store
+		var as *SAssign
+		switch g.R.Intn(5) {
+		case 0:
+			as = &SAssign{LHS: []Expr{N(i), Idx(N(t), N(i))}, RHS: []Expr{Bin("+", N(i), Num(1)), a.Ref()}}
+		case 1:
+			as = &SAssign{LHS: []Expr{Idx(N(t), N(i)), N(i)}, RHS: []Expr{a.Ref(), Bin("+", N(i), Num(1))}}
+		case 2:
+			as = &SAssign{LHS: []Expr{Idx(N(t), N(i)), N(i), Idx(N(t), Bin("+", N(i), Num(1)))}, RHS: []Expr{a.Ref(), Bin("+", N(i), Num(2)), Str("third")}}
+		case 3:
+			as = &SAssign{LHS: []Expr{Idx(N(t), N(i)), N(i)}, RHS: []Expr{Str("x")}} // i becomes nil after the key was taken
+		default:
+			as = &SAssign{LHS: []Expr{N(i), Idx(N(t), N(i)), Idx(N(t), Bin("+", N(i), Num(1)))}, RHS: []Expr{Num(4), a.Ref()}}
+		}
+		g.cover("multiassign:key-local-is-a-target")
 		return []Stmt{
 			Local1(t, &ETable{}),
-			Local1(i, Num(float64(1+g.R.Intn(3)))),
-			&SAssign{LHS: []Expr{N(i), Idx(N(t), N(i))}, RHS: []Expr{Bin("+", N(i), Num(1)), a.Ref()}},
+			Local1(i, Num(float64(1+g.R.Intn(2)))),
+			as,
 			CallSN("emit", N(i), Idx(N(t), Num(1)), Idx(N(t), Num(2)), Idx(N(t), Num(3)), Idx(N(t), Num(4))),
+			Assign1(N(i), Num(1)),
 		}
 	default:
 		// t[i], t[j] = t[j], t[i] on a fresh list
@@ -308,12 +325,59 @@ func (g *Gen) breakStmt() Stmt {
 	return &SIf{Conds: []Expr{g.expr(KBool, ectx{depth: 2})}, Blocks: []*Block{Blk(&SBreak{})}}
 }
 
+// nilLocalsAtJumpTargets: locals declared without a value (LOADNIL) right
+// before and right at a jump target - the head of a repeat/while body, a
+// label, the join after an if/else, a short-circuit - whose registers are
+// neighbours. Each pass through the target must see a fresh nil, however the
+// text is laid out (a compiler that merges neighbouring LOADNILs across the
+// target initialises the second local only once).
+func (g *Gen) nilLocalsAtJumpTargets() []Stmt {
+	g.stmts++
+	x, y, n := g.fresh("nx"), g.fresh("ny"), g.fresh("nn")
+	use := func(tag string) Stmt { return CallSN("emit", Str(tag), N(x), N(y), N(n)) }
+	switch g.R.Intn(5) {
+	case 0:
+		g.cover("nil-locals:repeat-head")
+		return []Stmt{&SDo{Body: Blk(Local1(n, Num(0)), &SLocal{Names: []string{x}},
+			&SRepeat{Body: Blk(&SLocal{Names: []string{y}}, use("nl-repeat"), Assign1(N(y), N(n)), Assign1(N(x), N(n)), Assign1(N(n), Bin("+", N(n), Num(1)))), Cond: Bin(">=", N(n), Num(3))})}}
+	case 1:
+		g.cover("nil-locals:while-head")
+		return []Stmt{&SDo{Body: Blk(Local1(n, Num(0)), &SLocal{Names: []string{x}},
+			&SWhile{Cond: Bin("<", N(n), Num(3)), Body: Blk(&SLocal{Names: []string{y}}, use("nl-while"), Assign1(N(y), N(n)), Assign1(N(x), N(n)), Assign1(N(n), Bin("+", N(n), Num(1))))})}}
+	case 2:
+		if !g.F.Goto {
+			break
+		}
+		g.cover("nil-locals:label")
+		top := g.fresh("Lnl")
+		return []Stmt{&SDo{Body: Blk(Local1(n, Num(0)), &SLocal{Names: []string{x}}, &SLabel{Name: top}, &SDo{Body: Blk(
+			&SLocal{Names: []string{y}}, use("nl-label"), Assign1(N(y), N(n)), Assign1(N(x), N(n)), Assign1(N(n), Bin("+", N(n), Num(1))),
+			&SIf{Sites: make([]Site, 1), Conds: []Expr{Bin("<", N(n), Num(3))}, Blocks: []*Block{Blk(&SGoto{Label: top})}})})}}
+	case 3:
+		g.cover("nil-locals:if-join")
+		p := g.fresh("np")
+		return []Stmt{&SNumFor{Var: n, Start: Num(1), Limit: Num(2), Body: Blk(
+			Local1(p, Num(5)), Local1(x, Num(6)),
+			&SIf{Sites: make([]Site, 1), Conds: []Expr{Bin("==", N(n), Num(1))}, Blocks: []*Block{Blk(Assign1(N(p), Num(2)))}, Else: Blk(Assign1(N(p), &ENil{}))},
+			&SLocal{Names: []string{y}}, use("nl-join"), CallSN("emit", N(p)))}}
+	}
+	g.cover("nil-locals:short-circuit")
+	c := g.fresh("nc")
+	return []Stmt{&SNumFor{Var: n, Start: Num(1), Limit: Num(2), Body: Blk(
+		Local1(c, Bin("==", N(n), Num(1))),
+		Local1(x, Bin("and", N(c), &ENil{})),
+		&SLocal{Names: []string{y}}, use("nl-and"))}}
+}
+
 // stmt generates any statement.
 func (g *Gen) stmt() []Stmt {
 	if g.depth >= g.F.MaxDepth || g.stmts >= g.F.MaxStmts {
 		return g.simpleStmt()
 	}
 	r := g.R.Intn(30)
+	if r < 12 && g.R.Intn(12) == 0 {
+		return g.nilLocalsAtJumpTargets()
+	}
 	switch {
 	case r < 12:
 		return g.simpleStmt()
